@@ -52,7 +52,7 @@ def life_stage(ck, tier, props, transform=None, tag="life", coherent_only=False,
         generic = i % 4 == 3          # one field of type G, instantiated with W: default bounds at work in a living program
         # syntactic guises: every second item is written with one or two spellings that mean the same
         g = grnd.sample(lf.GUISES, grnd.choice([1, 1, 2])) if i % 2 == 1 else []
-        v["L"] = lf.with_names(v["L"], g)
+        v["L"] = lf.with_names(v["L"], g, i)
         mods.append((i, lf.life_module(i, v["L"], v["hist"], entry, order, generic=generic, guise=g)))
         meta.append({"entry": entry, "order": order, "generic": generic, "guise": g})
     if transform:
